@@ -39,6 +39,7 @@ type xOpt struct {
 	Split   bool   `json:"split"`
 	Compact bool   `json:"compact"`
 	Sparse  bool   `json:"sparse"`
+	XLow    bool   `json:"xlow"`
 }
 
 type xCase struct {
@@ -152,11 +153,17 @@ func xBuild(c *xCase) ([]byte, int, error) {
 		if c.Opt.Split {
 			lhItem()
 		}
+		if rv.Kind == "stream" && c.Opt.XLow {
+			// the cross-reference stream takes its number BEFORE the container written in this revision, so the
+			// last entry of its section belongs to a real object, not to the cross-reference stream itself
+			r.XRefNum = next
+			next++
+		}
 		if len(members) > 0 {
 			items = append(items, pdfw.Item{Num: next, IsObjStm: true, Members: members, FlateStm: c.Opt.Flate})
 			next++
 		}
-		if rv.Kind == "stream" {
+		if rv.Kind == "stream" && !c.Opt.XLow {
 			r.XRefNum = next
 			next++
 		}
